@@ -38,6 +38,7 @@ open EmitModel EmitModel.Batcher
 
 inductive Op where
   | lab (l : Label)          -- a sender-side label or dropReceiver
+  | sample (l : Label)       -- metrics sampled with a sampler whose callback performs this send / try_send
   | poll
   | out (o : Outcome)
   | waited
@@ -48,6 +49,8 @@ def nats? (xs : List Sexp) : Option (List Nat) := xs.mapM Sexp.nat?
 def op? : Sexp → Option Op
   | .list [.atom "s", x] => x.nat?.map fun x => .lab (.send x)
   | .list [.atom "t", x] => x.nat?.map fun x => .lab (.trySend x)
+  | .list [.atom "m", x] => x.nat?.map fun x => .sample (.trySend x)
+  | .list [.atom "ms", x] => x.nat?.map fun x => .sample (.send x)
   | .list [.atom "f", w] => w.nat?.map fun w => .lab (.whenFlushed w)
   | .list [.atom "e", w] => w.nat?.map fun w => .lab (.whenEmpty w)
   | .list [.atom "ds"] => some (.lab .dropSender)
@@ -198,6 +201,13 @@ def runOp (cfg : Cfg) (sp : List Nat) (win : Windows) (ds : DS) : Op → DS × S
   | .lab l =>
     let (ds', tag, e) := senderOp cfg win 64 false ds l
     (ds', tok tag e ds'.1)
+  | .sample l =>
+    -- `sample_metrics` reads `sampleQueueLength` under the lock and releases it before calling the sampler
+    -- (lib.rs:659-678), so the send performed by the sampler's callback is an ordinary sender step
+    let _q := sampleQueueLength ds.1
+    let (ds', tag, e) := senderOp cfg win 64 false ds l
+    let tag' := if tag == "x" then "x" else if tag == "s" then "ms" else "m" ++ (tag.drop 1).toString
+    (ds', tok tag' e ds'.1)
   | .poll =>
     match ds.1.rx with
     | .done => (ds, tok "x" [] ds.1)
@@ -226,6 +236,7 @@ def runOps (cfg : Cfg) (sp : List Nat) (win : Windows) : DS → List Op → List
   | ds, [], acc => (ds, acc.reverse)
   | ds, o :: os, acc => let (ds', t) := runOp cfg sp win ds o; runOps cfg sp win ds' os (t :: acc)
 
+/-- A sender-side op inside a window / callback: (label, is it performed through a metrics sampler). -/
 def senderLabel? (x : Sexp) : Option Label :=
   match op? x with
   | some (.lab .dropReceiver) => none
@@ -267,7 +278,7 @@ def signature (s : St) (nops : Nat) : String :=
     s!"calls={min s.calls.length 6},rx={rxName s}"
       ++ b (s.mTruncated > 0) ",trunc" ++ b (s.mRetry > 0) ",retry" ++ b (s.mPanicked > 0) ",panic"
       ++ b (s.mFailed > 0) ",fail" ++ b (!s.fired.isEmpty) ",fired" ++ b (!s.firedTake.isEmpty) ",firedTake" ++ b (!s.dropped.isEmpty) ",dropped"
-      ++ b (!s.senderAlive) ",closed" ++ b (s.callsPerBatch.any (· ≥ 11)) ",exhausted"
+      ++ b (!s.senderAlive) ",closed" ++ b (s.waits.contains (Cfg.real 1).idleCap) ",idlecap" ++ b (s.callsPerBatch.any (· ≥ 11)) ",exhausted"
 
 /-- Projection of the full trace onto one property's observables (mirrors `Proj` in the Rust stream):
     event kinds kept (by first character), op tags kept, `|queue/truncated` kept, final counters kept. -/
@@ -354,6 +365,18 @@ def timeout? : Sexp → Option Nat
 
 def runBlocking (line : String) : String :=
   match Sexp.parse line with
+  | some (.list [.atom "blseq", api, ctx]) =>
+    match api? api, ctx? ctx with
+    | some api, some ctx =>
+      if api = .async ∨ ¬ (ctx = .plainThread ∨ ctx = .tokioMultiThread ∨ ctx = .tokioCurrentThread) then "bad-op"
+      else if pathPanics (blockingPath api ctx) ctx then s!"panic\tseq"
+      else match flushSequence (Cfg.real 8) with
+        | some (f1, f2, s) =>
+          -- C07.flush_sound at the instant flush #2 returns true: everything accepted before it is finalised
+          let sound := [1, 2, 3].all fun x => s.finalised.contains x
+          s!"{f1},{f2}\tseq,{pathName (blockingPath api ctx)},sound={sound}"
+        | none => "blocked\tseq"
+    | _, _ => "bad-op"
   | some (.list [.atom "bl", api, .atom op, ctx, rx, cap, prefill, timeout]) =>
     match api? api, ctx? ctx, rxKind? rx, cap.nat?.filter (· ≥ 1), prefill.nat?, timeout? timeout with
     | some api, some ctx, some rx, some cap, some prefill, some timeout =>
